@@ -18,8 +18,8 @@ ASSUMPTIONS = [
 # those checks run it too (one defect is then reported under every property it breaks)
 EXTRA_PROPS = {
     'R-LIST-C06': ['C01', 'C07'], 'R-LIST-C07': ['C01', 'C06'], 'R-LIST-C03': ['C04'],
-    'R-ELECT-C08': ['C01'], 'R-ELECT-C10': ['C01'], 'R-ELECT-C13': ['C01'], 'R-ELECT-C14': ['C01'], 'R-ELECT-C19': ['C01'], 'R-ELECT-C06': ['C01'],
-    'R-ELECT-C01': ['C04', 'C05'],
+    'R-ELECT-C08': ['C01', 'C02', 'C09'], 'R-ELECT-C10': ['C01', 'C02'], 'R-ELECT-C13': ['C01', 'C02'], 'R-ELECT-C14': ['C01', 'C02'], 'R-ELECT-C19': ['C01', 'C02'], 'R-ELECT-C06': ['C01'],
+    'R-ELECT-C01': ['C04', 'C05', 'C02'],
     'R-DEREG-C07': ['C04'], 'R-DEREG-C14': ['C04'], 'R-DEREG-C19': ['C04'], 'R-DEREG-C13': ['C04'], 'R-DEREG-C18': ['C04'], 'R-DEREG-C10': ['C04'],
     'R-DEREG-C04': ['C02'],
     'R-SIG-1': ['C05', 'C13', 'C19'], 'R-SIG-3': ['C02'],
@@ -27,7 +27,7 @@ EXTRA_PROPS = {
     'R-LOCK-C06': ['C01'], 'R-LOCK-C07': ['C06'], 'R-NOTIFY': ['C07', 'C01'],
     'R-MO-C01': ['C04'], 'R-MO-C06': ['C14', 'C15'], 'R-MO-C15': ['C16'], 'R-MO-C19': ['C15', 'C16'],
     'R-QRY': ['C04', 'C18'],
-    'R-INIT-DISCR': ['C07'],
+    'R-INIT-DISCR': ['C07'], 'R-EXC-PAIR': ['C06', 'C01'],
     'R-CHAN': ['C20', 'C01'], 'R-SIB-C14': ['C07'], 'R-SIB-C01': ['C04', 'C05'],
 }
 
